@@ -112,6 +112,16 @@ func (s *levelHandler) replaceTables(toDel, toAdd []*table.Table) error {
 		toDelMap[t.ID()] = struct{}{}
 	}
 	var newTables []*table.Table
+	added := false
+	add := func() {
+		// Increase totalSize first.
+		for _, t := range toAdd {
+			s.addSize(t)
+			t.IncrRef()
+			newTables = append(newTables, t)
+		}
+		added = true
+	}
 	for _, t := range s.tables {
 		_, found := toDelMap[t.ID()]
 		if !found {
@@ -119,20 +129,24 @@ func (s *levelHandler) replaceTables(toDel, toAdd []*table.Table) error {
 			continue
 		}
 		s.subtractSize(t)
+		if s.level == 0 && !added {
+			// Level 0 is ordered by age, not by key: newer tables are at the end and take
+			// precedence when the same key (and version) is present in several tables. The
+			// output of an L0->L0 compaction takes the place of its (adjacent) inputs.
+			add()
+		}
 	}
-
-	// Increase totalSize first.
-	for _, t := range toAdd {
-		s.addSize(t)
-		t.IncrRef()
-		newTables = append(newTables, t)
+	if !added {
+		add()
 	}
 
 	// Assign tables.
 	s.tables = newTables
-	sort.Slice(s.tables, func(i, j int) bool {
-		return y.CompareKeys(s.tables[i].Smallest(), s.tables[j].Smallest()) < 0
-	})
+	if s.level != 0 {
+		sort.Slice(s.tables, func(i, j int) bool {
+			return y.CompareKeys(s.tables[i].Smallest(), s.tables[j].Smallest()) < 0
+		})
+	}
 	s.Unlock() // s.Unlock before we DecrRef tables -- that can be slow.
 	return decrRefs(toDel)
 }
